@@ -130,6 +130,12 @@ func (w *World) CompareAccounts(a *AppState, prop string, balances, nonces bool,
 				w.fail(prop, "account %s: balance changed by %s in this block (now %s), expected change %s (model effects this block: %v)", k[:8], dGot.String(), got.Bal.Dec(), dM.String(), keysOf(causes))
 			}
 		}
+		if n := w.refOKButFailed[k]; nonces && n > 0 {
+			if got.Nonce+uint64(n) != m.Nonce {
+				w.fail(prop, "account %s: nonce %d, expected %d: %d of its contract txs failed (non-zero code) and a failed tx does not use up a nonce", k[:8], got.Nonce, m.Nonce-uint64(n), n)
+			}
+			continue
+		}
 		if nonces && got.Nonce != m.Nonce {
 			w.fail(prop, "account %s: nonce %d, expected %d", k[:8], got.Nonce, m.Nonce)
 		}
